@@ -29,8 +29,14 @@ TRUSTED = ["numpy"]
 REG = std_pairings(Reg())
 # rows with a category that carries no numeric value (scale statistics skip it; proportions must not)
 from mc import schemas as _S   # noqa: E402
+from mc.common2d import subtotal as _sub   # noqa: E402
 REG.add(_S.schema2("catnv3_x_cat2", _S.cat("a", 3, "mid", values=[1, None, 3]), _S.cat("b", 2, "first"), weighted=True), (1, 2),
         configs=[{}], quick=2, thorough=3)
+REG.add(_S.schema2("tinyw_cat2_x_cat2", _S.cat("a", 2, "last"), _S.cat("b", 2, "first"), weighted=True), (1e-11, 3e-11),
+        configs=[{}, {"rows": [_sub("r12", [1, 2], anchor="top", sid=1)], "cols": [_sub("c12", [1, 2], anchor="bottom", sid=1)]}],
+        quick=3, thorough=4)
+REG.add(_S.schema2("tinyw_cat2_x_mr", _S.cat("a", 2, "last"), _S.mr("m", 2), weighted=True), (1e-11, 3e-11), configs=[{}],
+        quick=2, thorough=2)
 SCHEMAS = REG.schemas
 # outputs read FIRST on an untouched partition by the order-of-reads guard (they share cached blocks with the
 # proportions or are computed from them)
